@@ -162,6 +162,12 @@ func runVCCase(wt *watch, c *VCCase, idx int) Event {
 		pre, post = "\"a-${", "}\""
 	case "binr":
 		pre = "1 + "
+	case "cmpr":
+		pre = "1 < "
+	case "cmpl":
+		post = " >= 1"
+	case "eqr":
+		pre = "loc.l == "
 	case "condt":
 		pre, post = "true ? ", " : null"
 	case "condf":
